@@ -162,11 +162,186 @@ def relational(ctx):
     return nob, ndis, npaths
 
 
+def typestate_rule(ctx):
+    """find_prime_factor returns a value that has been ESTABLISHED prime on every path.
+
+    Analysed on the function's own IR (no inlining, so the calls are visible): every value that can
+    reach the `ret` must trace back, through phis, selects and casts, to one of
+      * an element of the table of first primes (whose entries are checked to be primes),
+      * the function's own result (recursion: inductive),
+      * a value v on an edge that is only reachable through the true outcome of is_prime(v),
+      * the parameter n chosen because p*p > n for a table element p inside the trial-division loop.
+    Anything else - say, the result of the rho search handed back unchecked - is reported with the
+    instruction it comes from.  (Whether the value also DIVIDES n is not visible in the shape of the
+    code and is left to the witnesses.)"""
+    import os
+    import re as _re
+    from vlib import cxx
+    wd = ctx.sub("TS")
+    src = os.path.join(wd, "fpf.cc")
+    with open(src, "w") as f:
+        f.write('#include <cstdint>\n#include "au/utility/factoring.hh"\n'
+                'extern "C" std::uint64_t fpf(std::uint64_t n) { return au::detail::find_prime_factor(n); }\n')
+    raw, out = os.path.join(wd, "fpf.raw.ll"), os.path.join(wd, "fpf.ll")
+    rc, so, se = cxx.run(["clang++", "-std=c++14", "-I" + ir.AU_INC, "-g", "-O1", "-Xclang", "-disable-llvm-passes", "-S", "-emit-llvm", "-w", src, "-o", raw])
+    if rc != 0:
+        raise AnalysisBroken("find_prime_factor wrapper does not compile: %s" % se[-300:])
+    rc, so, se = cxx.run(["opt-14", "-S", "-passes=function(sroa,simplifycfg,lowerswitch)", raw, "-o", out])
+    if rc != 0:
+        raise AnalysisBroken("opt failed on the find_prime_factor unit: %s" % se[-300:])
+    text = open(out).read()
+    # the table: every entry a prime, ascending, starting at 2 (the trial-division argument needs that)
+    m = _re.search(r"FirstPrimesImpl\w*6valuesE = [^\n]*\[(\d+) x i16\] \[([^\]]*)\]", text)
+    ctx.require(m is not None, "table of first primes not found in the IR")
+    table = [int(x) for x in _re.findall(r"i16 (\d+)", m.group(2))]
+    ctx.require(len(table) == int(m.group(1)) and len(table) >= 20, "table of first primes has %d entries" % len(table))
+    fails = []
+    expect = 2
+    for t in table:
+        while not model.is_prime(expect):
+            expect += 1
+        if t != expect:
+            fails.append("table of first primes: entry %d where the next prime is %d (trial division is only complete over ALL primes up to the last entry)" % (t, expect))
+            break
+        expect += 1
+    mod = ir.parse_module(out, only=lambda n: "find_prime_factor" in n)
+    fn = [v for k, v in mod.funcs.items() if "find_prime_factor" in k]
+    ctx.require(len(fn) == 1, "find_prime_factor not found in the IR")
+    fn = fn[0]
+    defs = {}
+    where = {}
+    for l in fn.order:
+        for i in fn.blocks[l]:
+            if i.res is not None:
+                defs[i.res] = i
+                where[i.res] = l
+    succ = {l: list(fn.blocks[l][-1].targets or []) for l in fn.order}
+    param = fn.params[0][1]
+
+    def name(a):
+        return a.v if getattr(a, "kind", None) == "v" else None
+
+    def is_prime_call(i):
+        return i is not None and i.op == "call" and i.callee and "is_prime" in i.callee and "detail" in i.callee
+
+    guards = []  # (from block, to block, value name) : edge taken only when is_prime(value) held
+    for l in fn.order:
+        t = fn.blocks[l][-1]
+        if t.op == "br" and len(t.targets) == 2:
+            c = defs.get(name(t.args[0]))
+            neg = False
+            if c is not None and c.op == "xor" and any(getattr(a, "kind", None) == "c" and a.v == 1 for a in c.args):
+                neg = True
+                c = defs.get([name(a) for a in c.args if name(a)][0])
+            if is_prime_call(c):
+                v = name(c.args[0])
+                if v is not None:
+                    guards.append((l, t.targets[1] if neg else t.targets[0], v))
+
+    def reachable_without(edge, target):
+        seen, todo = set(), [fn.entry]
+        while todo:
+            b = todo.pop()
+            if b in seen:
+                continue
+            seen.add(b)
+            for s_ in succ.get(b, []):
+                if (b, s_) != edge:
+                    todo.append(s_)
+        return target in seen
+
+    def guarded(v, frm, to):
+        for (gf, gt, gv) in guards:
+            if gv == v and ((gf, gt) == (frm, to) or not reachable_without((gf, gt), frm)):
+                return True
+        return False
+
+    def table_element(i):
+        # zext / load chain from operator[] or a GEP on the table
+        while i is not None and i.op in ("zext", "sext", "trunc"):
+            i = defs.get(name(i.args[0]))
+        if i is None or i.op != "load":
+            return False
+        raw_ = " ".join(str(a) for a in i.args)
+        mm = _re.search(r"%([\w.]+)", raw_)
+        p = defs.get(mm.group(1)) if mm else None
+        if p is not None and p.op == "call" and "FirstPrimes" in " ".join(str(a) for a in p.args) + (p.raw or ""):
+            return True
+        return "FirstPrimes" in raw_
+
+    def from_table_square(i):
+        # sext/zext(mul(t, t)) with t table elements
+        while i is not None and i.op in ("zext", "sext"):
+            i = defs.get(name(i.args[0]))
+        return i is not None and i.op == "mul" and all(table_element(defs.get(name(a))) for a in i.args)
+
+    busy = set()
+
+    def evidence(a, frm, to):
+        """a: operand reaching block `to` over the edge frm->to.  Returns None if fine, else a reason."""
+        if getattr(a, "kind", None) != "v":
+            return None if getattr(a, "kind", None) == "u" or getattr(a, "v", 0) is None else "a constant"
+        v = a.v
+        if frm is not None and guarded(v, frm, to):
+            return None
+        if v == param:
+            return "the parameter n without a primality check on this path"
+        i = defs.get(v)
+        if i is None:
+            return "an unknown value %%%s" % v
+        if table_element(i):
+            return None
+        if i.op == "call" and i.callee and "find_prime_factor" in i.callee:
+            return None
+        if (v, frm, to) in busy:
+            return None  # loop-carried: decided by the other incoming values
+        busy.add((v, frm, to))
+        try:
+            if i.op == "phi":
+                for (o, pl) in i.incoming:
+                    r = evidence(o, pl, where[v])
+                    if r:
+                        return r
+                return None
+            if i.op == "select":
+                c = defs.get(name(i.args[0]))
+                for arm in i.args[1:]:
+                    if name(arm) == param and c is not None and c.op == "icmp" and c.pred in ("ugt", "uge", "ult", "ule") \
+                            and any(name(x) == param for x in c.args) and any(from_table_square(defs.get(name(x))) for x in c.args):
+                        continue  # n itself, chosen because p*p > n inside the trial division
+                    r = evidence(arm, frm, to)
+                    if r:
+                        return r
+                return None
+            if i.op in ("zext", "sext", "trunc"):
+                return evidence(i.args[0], frm, to)
+            if i.op == "call":
+                return "the result of %s, handed back without a primality check (%s)" % (_re.sub(r"^_ZN2au6detail\d+", "", i.callee or "?"), mod.where(i.dbg) if i.dbg else "no line info")
+            return "the result of `%s`" % i.op
+        finally:
+            busy.discard((v, frm, to))
+
+    nret = 0
+    for l in fn.order:
+        t = fn.blocks[l][-1]
+        if t.op == "ret":
+            nret += 1
+            r = evidence(t.args[0], None, l)
+            if r:
+                fails.append("find_prime_factor can return %s" % r)
+    ctx.require(nret >= 1 and len(guards) >= 2, "find_prime_factor: %d returns, %d is_prime guards found" % (nret, len(guards)))
+    for k, msg in enumerate(fails):
+        ctx.violation("typestate:%d" % k, msg)
+    return dict(table_entries=len(table), returns=nret, is_prime_guards=len(guards), failures=len(fails))
+
+
 def body(ctx):
     rnd = random.Random(ctx.seed)
     configs = cxx.configs_for(ctx.tier)
     nob, ndis, npaths = relational(ctx)
     ctx.log("relational: %d obligations over %d paths of add_mod / sub_mod / half_mod_odd, %d discharged" % (nob, npaths, ndis))
+    ts = typestate_rule(ctx)
+    ctx.log("typestate: %s" % ts)
 
     # ---- W: adversarial numbers
     primes = set()
@@ -300,7 +475,7 @@ def body(ctx):
         evaluations=len(items) * len(configs) + nob, distinct_nontrivial=len(items) + nob,
         rule="proof part: every path of add_mod / sub_mod / half_mod_odd under the documented preconditions (add_mod under the weaker a <= n), obligations = no unsigned wrap of a contributing operation, result in [0, n), result congruent to the exact value; exploration part: one witness program per prime / composite N (decltype(mag<N>()) against a factorisation computed with Python integers), products mag<a>*mag<b> == mag<a*b>, Prime<N> refused for every tabulated pseudoprime / Carmichael number; no function value is asserted directly",
         samples=[dict(key=items[0].key, code=items[0].code), dict(key=items[len(primes)].key, code=items[len(primes)].code)],
-        exhaustive=False, relational_obligations=nob, relational_discharged=ndis, relational_paths=npaths,
+        exhaustive=False, typestate=ts, relational_obligations=nob, relational_discharged=ndis, relational_paths=npaths,
         primes=len(primes), composites=len(composites), w_items=len(items), w_mismatches=nbad, witnesses_over_budget=len(budget),
         configs=[c.name for c in configs], engine_stats=stats,
         not_decided="is_prime / find_prime_factor / mul_mod / pow_mod for every 64-bit input: sampled on adversarial and seeded inputs only"))
